@@ -365,6 +365,10 @@ func c05Spec(rng *rand.Rand, i int) (*SessSpec, string) {
 		// the file system rejects a save (the directory is gone), then works again: the next save stores what the rejected one carried
 		sp.Steps = append(sp.Steps, app(), Step{Op: "barrier"}, Step{Op: "ack", Sel: "all"}, Step{Op: "breakfile"}, Step{Op: "commit"}, Step{Op: "fixfile"}, Step{Op: "commit"}, Step{Op: "check"})
 	}
+	if kind == "file" && i%16 == 15 {
+		// the same with a save whose temporary file is written but cannot be moved into place
+		sp.Steps = append(sp.Steps, app(), Step{Op: "barrier"}, Step{Op: "ack", Sel: "all"}, Step{Op: "breakfile", Sel: "rename"}, Step{Op: "commit"}, Step{Op: "fixfile", Sel: "rename"}, Step{Op: "commit"}, Step{Op: "check"})
+	}
 	if kind == "plain" || kind == "cb" || kind == "file" {
 		// out-of-order settling: the newest pending events first, a save, then the older ones ("stale" acknowledgements)
 		sp.Steps = append(sp.Steps, app(), app(), Step{Op: "barrier"}, Step{Op: "ack", Sel: "newest", N: 2 + rng.Intn(3)}, Step{Op: "stalecheck"})
